@@ -234,6 +234,28 @@ func corpus(e *ev.Env) {
 			})
 		}
 	}
+	// StoreResponseHeaders: headers pre-set by a middleware in front of the cache and overridden /
+	// left alone / deleted by the origin; header lines the origin adds twice
+	for _, vs := range []bool{false, true} {
+		vs := vs
+		e.Corpus("pre-set-headers-"+conf{VStore: vs}.backend(), func(c *ev.Case) {
+			cf := conf{Exp: 5, VStore: vs, StoreHdr: true, PreHdr: true}
+			var st []step
+			i := 0
+			for a := 0; a < 3; a++ {
+				for b := 0; b < 3; b++ {
+					k := "h" + strconv.Itoa(i)
+					i++
+					st = append(st, step{Q: rq{Method: "GET", Key: k, Status: 200, Size: 50, Pre: [3]int{a, b, (a + b) % 3}}}, get(k, 1), get(k, 1))
+				}
+			}
+			runHistory(e, c, cf, st, false)
+		})
+		e.Corpus("multi-valued-headers-"+conf{VStore: vs}.backend(), func(c *ev.Case) {
+			cf := conf{Exp: 5, VStore: vs, StoreHdr: true}
+			runHistory(e, c, cf, []step{{Q: rq{Method: "GET", Key: "m", Status: 200, Size: 50, Multi: true}}, get("m", 1), get("m", 1)}, false)
+		})
+	}
 	// CacheInvalidator returns true for a key the external storage does not hold: manager.get
 	// hands out a zero item (heapidx 0), the middleware marks it expired and removes heap index 0.
 	e.Corpus("invalidator-absent-entry-empty-heap", func(c *ev.Case) {
